@@ -493,4 +493,35 @@ func runC09(r *Run) {
 	}
 	// v2 frames carry the block: streaming decode with the ring's end at positions inside the metadata block
 	r.wrapSweep(13, false)
+	// malformed blocks inside otherwise well-formed v2 frames - every packet type, with and without signature, body
+	// plain or really compressed - through both decode entry points: the frame is rejected whatever follows the block
+	good := (&protocol.Metadata{Values: map[string]string{"key": "value", "k2": "v2"}}).MarshalValues(65535)
+	blocks := [][]byte{
+		good[:len(good)-1],                      // last value cut short
+		good[:5],                                // cut inside the first value
+		{0x80, 0x03, 'k', 'e', 'y', 0x01, 'v'},  // non-canonical two-byte length
+		{0x03, 'k', 'e', 'y'},                   // key without a value
+		{0x03, 'k', 'e', 'y', 0x7f, 'v'},        // value length beyond the block
+		append(append([]byte{}, good...), 0x81), // half a length prefix after the last pair
+	}
+	for bi, blk := range blocks {
+		for ty := 1; ty <= 3; ty++ {
+			for _, verify := range []bool{false, true} {
+				for _, gz := range []bool{false, true} {
+					f := &RefFrame{V: 2, Type: ty, Verify: verify, Gzip: gz, Cmd: 9, Rid: 5, Timeout: 3, Nonce: 7, Sig: []byte("0123456789abcdef"),
+						Meta: blk, Body: []byte("the body after the block"), MLenField: -1, BLenField: -1}
+					if ty == 3 {
+						f.Rid, f.Timeout = 0, 0
+					}
+					if ty == 2 {
+						f.Timeout, f.Status = 0, 4
+					}
+					if gz {
+						f.Body = stdCompress([]byte("the body after the block"))
+					}
+					r.unpackCase(2, 1, f.encode(), fmt.Sprintf("malformed-block-%d", bi))
+				}
+			}
+		}
+	}
 }
